@@ -887,4 +887,34 @@ theorem nodupMembers : ∀ (ms : Members) (lc : Option PCtx) (lvl : Bool) (rc : 
 end
 
 
+/-! ### nested proxies -/
+
+mutual
+theorem select_mem : ∀ (t : PTree) (is : List Nat) (s : Nat), t.select is = some s → s ∈ t.leaves
+  | .leaf s', [], s, h => by simp [PTree.select] at h; simp [PTree.leaves, h]
+  | .leaf _, _ :: _, s, h => by simp [PTree.select] at h
+  | .node _, [], s, h => by simp [PTree.select] at h
+  | .node cs, i :: is, s, h => by
+    simp only [PTree.select] at h
+    simpa [PTree.leaves] using selects_mem cs i is s h
+theorem selects_mem : ∀ (cs : PTrees) (i : Nat) (is : List Nat) (s : Nat), cs.select i is = some s → s ∈ cs.leaves
+  | .nil, _, _, s, h => by simp [PTrees.select] at h
+  | .cons t ts, 0, is, s, h => by
+    simp only [PTrees.select] at h
+    simp [PTrees.leaves, select_mem t is s h]
+  | .cons t ts, i + 1, is, s, h => by
+    simp only [PTrees.select] at h
+    simp [PTrees.leaves, selects_mem ts i is s h]
+end
+
+theorem getElem?_idxOf_mem (l : List Nat) (s : Nat) (h : s ∈ l) : l[l.idxOf s]? = some s := by
+  induction l with
+  | nil => simp at h
+  | cons a t ih =>
+    by_cases e : a = s
+    · subst e; simp
+    · have : s ∈ t := by simpa [Ne.symm e] using h
+      have hb : (a == s) = false := by simpa using e
+      simp [List.idxOf_cons, hb, ih this]
+
 end TxV.Assign
